@@ -6,12 +6,18 @@ use crate::streaming::systems::system::SharedSystem;
 use bytes::{BufMut, BytesMut};
 use iggy::bytes_serializable::BytesSerializable;
 use iggy::error::IggyError;
+use iggy::messages::{MAX_HEADERS_SIZE, MAX_PAYLOAD_SIZE};
 use iggy::validatable::Validatable;
 use std::io::ErrorKind;
 use std::sync::Arc;
 use tracing::{debug, error, info};
 
 const INITIAL_BYTES_LENGTH: usize = 4;
+// The largest request that passes validation is SendMessages: at most MAX_PAYLOAD_SIZE bytes of payloads,
+// hence at most that many messages, each adding 24 bytes (ID, headers length, payload length), and at most
+// MAX_HEADERS_SIZE bytes of header values, hence at most that many headers, each adding up to 264 bytes
+// (key length, key, kind, value length). Command code, identifiers and partitioning take less than 1000 bytes.
+const MAX_REQUEST_LENGTH: u32 = MAX_PAYLOAD_SIZE * (1 + 24) + MAX_HEADERS_SIZE * (1 + 264) + 1000;
 
 pub(crate) async fn handle_connection(
     session: Arc<Session>,
@@ -41,6 +47,17 @@ pub(crate) async fn handle_connection(
 
         let length = u32::from_le_bytes(initial_buffer);
         debug!("Received a TCP request, length: {length}");
+        if length > MAX_REQUEST_LENGTH {
+            // The announced bytes are not going to be read, so the connection cannot be used any more.
+            let reason = format!(
+                "TCP request length: {length} bytes exceeds the maximum: {MAX_REQUEST_LENGTH} bytes."
+            );
+            sender
+                .send_error_response(IggyError::CommandLengthError(reason.clone()))
+                .await?;
+            return Err(IggyError::CommandLengthError(reason).into());
+        }
+
         let mut command_buffer = BytesMut::with_capacity(length as usize);
         command_buffer.put_bytes(0, length as usize);
         sender.read(&mut command_buffer).await?;
